@@ -200,6 +200,29 @@ CHECKS = [
      "does not move a point onto the next segment's start is observed, not proved; a user callable is one of the six rate "
      "metrics wrapped in a lambda.",
      "Lean 4 proof about a hand-written model + differential correspondence check", "DESIGN.md §5 C17"),
+ chk("C14",
+     "Lean model (SA/Model/BootMetric.lean, abstract over the sample type): bootstrapMetric sampler metric nb = row j is "
+     "metric (sampler j) for j < nb; bootstrapCIOf = for every component k of metric original the C13 formula bootstrapCI on "
+     "column k of that matrix with estimate component k. Theorems: C14_rows (nb rows, row j = metric of the j-th sample, every "
+     "row has the metric's length), C14_rows_spec, C14_column, C14_ci / C14_ci_quantile (component k of the interval = C13 formula "
+     "on column k with the metric of the ORIGINAL as estimate), C14_quantile_const (a list of n >= 1 copies of c has c as its "
+     "linear quantile at EVERY level), C14_identity_component / C14_identity / C14_identity_spec (identity sampler, nb >= 1, finite "
+     "estimate: both limits of every component equal the estimate for quantile, bc and bca and ANY normal / power oracles), "
+     "C14_deterministic (samplers agreeing on range nb give the same matrix and interval). Tied to /repo by owning the sampler: "
+     "counting deterministic custom samplers (call k returns a recognisable object and records it; called with self, exactly "
+     "nb_samples times by bootstrap_metric and by bootstrap_ci), rows recomputed by the harness from the recorded samples and "
+     "compared exactly, the identity sampler for all three methods, every built-in configuration under np.random.seed (two runs "
+     "byte-identical; row j = metric of the j-th sample of a fresh bootstrap_sample loop; config forwarded), metrics by name "
+     "(rates/aliases with scalar/1-d/2-d/size-0 thresholds, eer, auc, threshold_at_* with method=), group_* names and "
+     "groupwise(...) on GroupScores (shape (nb, G, T)), recording callables (scalar, Python float, 1-d, 2-d, size-0, integer, "
+     "NaN-producing; sample passed first, kwargs unchanged), shape/dtype, bootstrap_ci == utils.bootstrap_ci(theta=those rows, "
+     "theta_hat=metric(original)) exactly, object and caller arrays unchanged; the Lean op bootmetric evaluates rowsOK, "
+     "C13.formulaOK (model interval from the OBSERVED replicates with recorded scipy oracle values) and identityOK.",
+     BASE_NOTE + "Python attribute resolution (getattr(type(self), name)), keyword forwarding and NumPy RNG determinism are "
+     "observed, not proved; utils.bootstrap_ci itself is the subject of C13; a NaN estimate component under bc/bca is outside "
+     "the Lean model (still compared with utils.bootstrap_ci); two open findings (bca raises UFuncTypeError for integer-valued "
+     "metrics; bc/bca raise ValueError when a component is NaN in every replicate) are listed in known_findings.json.",
+     "Lean 4 proof about a hand-written model + differential correspondence check with harness-owned samplers", "DESIGN.md §5 C14"),
 ]
 
 ALL = [f"C{i:02d}" for i in range(1, 21)]
